@@ -118,7 +118,8 @@ pub fn gen(seed: u64) -> Replay {
     // region AC, old task switches NT, IOPL by the loader): they must not confuse the flag logic
     let mut sys = 0u64;
     if rng.chance(40) {
-        for b in [21u32, 18, 14, 12, 13] {
+        // (VIF/VIP, bits 19/20, can be loaded by an iretq image and are left alone by popfq)
+        for b in [21u32, 18, 14, 12, 13, 19, 20] {
             if rng.chance(40) {
                 sys |= 1 << b;
             }
